@@ -6,10 +6,11 @@ from pyvc import symdesc as SD
 import contracts.C10_cache as C10
 
 PROPERTY = "C11"
-LEVEL = "other"
-EXPLANATION = ("P: cmd_payload_extract.main (pop / replace / dump / optional file) and one level of CacheFromEnvelope.fill_cache_from_envelope_data for "
-               "0..3 integrated members with both pattern outcomes symbolic per member and dependencies handled by the function's own contract at the recursive "
-               "call (any depth); B: whole hierarchies to depth 3 through the CLI entry points. Level `other`: the number of integrated members per level is unrolled.")
+LEVEL = "proof"
+EXPLANATION = ("P: CacheFromEnvelope.fill_cache_from_envelope_data and cmd_payload_extract.main for ANY number of integrated members (predicate-abstracted envelope, "
+               "foreach rule with validated pointwise effects, pyvc/relmap.py) with symbolic patterns / payload name, dependencies handled by the function's own contract "
+               "at the recursive call (any depth); the 0..3-member unrolled variants beside it; the file-level wrapper and cmd_cache_create.main; "
+               "B: whole hierarchies to depth 3 through the CLI entry points.")
 FC = "suit_generator/cmd_cache_create.py"
 FP = "suit_generator/cmd_payload_extract.py"
 MEMBERS = ["#p0", "#p1", "#d0"]
@@ -61,7 +62,7 @@ c.raises("ValueError")  # padding larger than 0xFFFF for eb >= 0xFFFF (C10)
 def _conservation(it, ctx):
     from pyvc.values import VTag, VDict, VBytes
     from pyvc.restubs import FULLMATCH
-    if ctx.outcome != "return":
+    if ctx.outcome != "return" or it.c11_members is None:  # (None: the any-members variant, checked by _conservation_any)
         return None
     members = it.c11_members
     out = SD.origin(it, ctx.result)
@@ -104,6 +105,107 @@ def _conservation(it, ctx):
 
 c.check("conservation", _conservation)
 
+# ---- ANY number of integrated members (predicate-abstracted envelope, pyvc/relmap.py) -------------------------------------------------
+# The envelope is {2: W, 3: M, 17: X} plus an UNBOUNDED text-keyed part given by HAS : text -> bool and VAL : text -> bytes.  The two
+# filters become key sets, the three loops are verified by the foreach rule (effect validated on one arbitrary iteration, applied to all
+# elements on exit), the recursion is the function's own contract.  Statement, for an ARBITRARY text key k:
+#   k is in the output  <=>  k is in the input and not (k is no dependency and k is not omitted)       (exactly one place)
+#   k in the output and no dependency  =>  same bytes;   members 2, 3, 17 identical;   tag 107
+# and per arbitrary iteration: an extracted key goes to the cache once under its own name with its input bytes; a dependency is
+# extracted recursively from its input bytes with the same cache and patterns and what comes back is stored under the same name.
+def _any_envelope(it, env):
+    from pyvc import relmap, cbor
+    from pyvc.values import VTag, VInt
+    HAS = z3.Function(it.fresh_name("HAS"), z3.StringSort(), z3.BoolSort())
+    VALF = z3.Function(it.fresh_name("VAL"), z3.StringSort(), z3.SeqSort(z3.IntSort()))
+
+    def val(k):
+        it.assume(z3.Length(VALF(k)) < 2 ** 32)  # input assumption (4-byte length field of the cache format), instantiated where a value is used
+        return VALF(k)
+    m = relmap.new_relmap(it, {2: env.lookup("W"), 3: env.lookup("M"), 17: env.lookup("X")}, lambda k: HAS(k), val)
+    it.c11_any = (HAS, VALF)
+    it.c11_members = None
+    it.assumptions_used.add("any-members variant: every integrated member is a text key mapped to a byte string shorter than 2**32 (the envelope shape), integer-keyed members are 2, 3 and 17")
+    return cbor.enc(it, VTag(VInt(107), m))
+
+
+c.variants.append(("any-members", {"envelope_data": Computed(_any_envelope)}))
+
+
+def _pats(ctx):
+    from pyvc.values import VNone
+    from pyvc.restubs import FULLMATCH
+    omit, dep = ctx.arg("omit_payload_regex"), ctx.arg("dependency_regex")
+    is_dep = (lambda k: z3.BoolVal(False)) if isinstance(dep, VNone) else (lambda k: FULLMATCH(dep.e, k))
+    omitted = (lambda k: z3.BoolVal(False)) if isinstance(omit, VNone) else (lambda k: FULLMATCH(omit.e, k))
+    return is_dep, omitted
+
+
+def _conservation_any(it, ctx):
+    from pyvc import relmap
+    from pyvc.values import VTag
+    if getattr(it, "c11_members", 0) is not None or ctx.outcome != "return":
+        return None
+    HAS, VALF = it.c11_any
+    out = SD.origin(it, ctx.result)
+    if not (isinstance(out, VTag) and relmap.is_relmap(out.value)):
+        return [("output_is_an_envelope", z3.BoolVal(False))]
+    o = out.value.f
+    is_dep, omitted = _pats(ctx)
+    k = z3.Const(it.fresh_name("any_key"), z3.StringSort())
+    extracted = z3.And(HAS(k), z3.Not(is_dep(k)), z3.Not(omitted(k)))
+    goals = [("tag_kept", z3.BoolVal(out.tag.conc == 107)),
+             ("every_member_in_exactly_one_place_as_selected_by_the_patterns", o["has"](k) == z3.And(HAS(k), z3.Not(extracted))),
+             ("kept_member_bytes_identical", z3.Implies(z3.And(o["has"](k), z3.Not(is_dep(k))), o["val"](k) == VALF(k))),
+             ("no_other_members", z3.BoolVal(set(o["fixed"]) == {2, 3, 17}))]
+    for n_, g in ((2, "W"), (3, "M"), (17, "X")):
+        goals.append((f"authenticated_member_{n_}_byte_identical", z3.BoolVal(False) if n_ not in o["fixed"] or not hasattr(o["fixed"][n_], "e") else o["fixed"][n_].e == ctx.arg(g).e))
+    return goals
+
+
+c.check("conservation_any", _conservation_any)
+
+
+def _iteration_any(it, env, mark):
+    """One arbitrary iteration of the loops over key sets (identified by the effect the foreach rule inferred)."""
+    from pyvc.restubs import FULLMATCH
+    from pyvc.values import VNone
+    if getattr(it, "c11_members", 0) is not None:
+        return []
+    HAS, VALF = it.c11_any
+    k0 = it._loop_elem
+    ops = {op for _, op in getattr(it, "_foreach_effects", [])}
+    tr = it.trace[mark:]
+    slots = [t for t in tr if t[0] == "call" and t[1] == "CachePartition.add_cache_slot"]
+    recs = [t for t in tr if t[0] == "call" and t[1] == "CacheFromEnvelope.fill_cache_from_envelope_data"]
+    omit, dep = env.lookup("omit_payload_regex"), env.lookup("dependency_regex")
+    is_dep = z3.BoolVal(False) if isinstance(dep, VNone) else FULLMATCH(dep.e, k0.e)
+    omitted = z3.BoolVal(False) if isinstance(omit, VNone) else FULLMATCH(omit.e, k0.e)
+    goals = []
+    if "pop" in ops:
+        goals.append(("extracted_member_is_one_selected_by_the_patterns", z3.And(HAS(k0.e), z3.Not(is_dep), z3.Not(omitted))))
+        goals.append(("extracted_member_cached_once_under_its_name_with_its_bytes", z3.BoolVal(len(slots) == 1 and not recs) if len(slots) != 1 or recs else
+                      z3.And(slots[0][2]["uri"].e == k0.e, slots[0][2]["data"].e == VALF(k0.e), z3.BoolVal(slots[0][2]["self"] is env.lookup("cache")))))
+    elif "set" in ops:
+        goals.append(("dependency_is_one_selected_by_the_pattern", z3.And(HAS(k0.e), is_dep)))
+        ok = len(recs) == 1 and not slots
+        goals.append(("dependency_extracted_recursively_once", z3.BoolVal(ok)))
+        if ok:
+            a = recs[0][2]
+            goals.append(("recursion_on_the_dependency_bytes_with_the_same_cache_and_patterns", z3.And(a["envelope_data"].e == VALF(k0.e), z3.BoolVal(a["cache"] is env.lookup("cache")
+                          and a["omit_payload_regex"] is omit and a["dependency_regex"] is dep))))
+            stored = [o for o, op in it._foreach_effects if op == "set"][0]
+            goals.append(("dependency_re_embedded_under_the_same_name", stored.f["val"](k0.e) == recs[0][3].e))
+    else:
+        # a loop that neither removes its element from the envelope nor stores under it: bookkeeping only
+        goals.append(("extracted_member_is_removed_from_the_envelope", z3.BoolVal(not slots)))
+        goals.append(("dependency_re_embedded_under_the_same_name", z3.BoolVal(not recs)))
+    return goals
+
+
+from pyvc.shapes import ObjInvT  # noqa: E402
+c.loops(body_check=_iteration_any, cache=C10.CP_INV)
+
 # ------------------------------------------------------------------------------------------------
 c = Contract(FP, "main", ["C11"])
 for g, t in GHOSTS:
@@ -114,19 +216,54 @@ c.param("payload_name", OneOf("#p0", "#p1"))
 c.param("output_payload_file", Opt(PathStr()))
 c.param("payload_replace_path", Opt(PathStr(exists=True)))
 def _main_setup(it, env):
+    if it.variant_label == "any-members":
+        # the envelope with ANY number of integrated members (see the any-members variant of fill_cache_from_envelope_data); the payload
+        # that is extracted is one of them (precondition: the property speaks about payloads of the input)
+        env.set("INPUT", _any_envelope(it, env))
+        HAS, VALF = it.c11_any
+        it.assume(HAS(env.lookup("payload_name").e))
+        return
+    it.c11_any = None
     env.set("INPUT", _enc_envelope(MEMBERS[:2]).fn(it, env))
 
 
 c.setup = _main_setup
+c.variants = [("two-members", {}), ("any-members", {"payload_name": Str()})]
 c.requires("input_is_the_envelope", "FILE(input_envelope) == INPUT")
 c.requires("distinct_files", "input_envelope != output_envelope and (output_payload_file is None or (output_payload_file != output_envelope and output_payload_file != input_envelope)) "
                              "and (payload_replace_path is None or (payload_replace_path != output_envelope and (output_payload_file is None or payload_replace_path != output_payload_file)))")
+
+
+def _extract_checks_any(it, ctx):
+    from pyvc import relmap
+    from pyvc.values import VTag, VNone
+    HAS, VALF = it.c11_any
+    out = SD.origin(it, ctx.eval("FILE(output_envelope)"))
+    if not (isinstance(out, VTag) and relmap.is_relmap(out.value)):
+        return [("output_is_an_envelope", z3.BoolVal(False))]
+    o = out.value.f
+    name = ctx.arg("payload_name").e
+    k = z3.Const(it.fresh_name("any_key"), z3.StringSort())
+    goals = [("tag_kept", z3.BoolVal(out.tag.conc == 107)),
+             ("every_other_member_kept_byte_identical", z3.Implies(k != name, z3.And(o["has"](k) == HAS(k), z3.Implies(HAS(k), o["val"](k) == VALF(k))))),
+             ("no_other_members", z3.BoolVal(set(o["fixed"]) == {2, 3, 17}))]
+    for n_, g in ((2, "W"), (3, "M"), (17, "X")):
+        goals.append((f"member_{n_}_byte_identical", z3.BoolVal(False) if n_ not in o["fixed"] or not hasattr(o["fixed"][n_], "e") else o["fixed"][n_].e == ctx.arg(g).e))
+    if isinstance(ctx.arg("payload_replace_path"), VNone):
+        goals.append(("extracted_payload_removed_from_envelope", z3.Not(o["has"](name))))
+    else:
+        goals.append(("replacement_embedded_under_the_same_name", z3.And(o["has"](name), o["val"](name) == ctx.eval("old(FILE(payload_replace_path))").e)))
+    if not isinstance(ctx.arg("output_payload_file"), VNone):
+        goals.append(("extracted_payload_written_byte_identical", ctx.eval("FILE(output_payload_file)").e == VALF(name)))
+    return goals
 
 
 def _extract_checks(it, ctx):
     from pyvc.values import VTag, VDict, VNone
     if ctx.outcome != "return":
         return None
+    if getattr(it, "c11_any", None) is not None:
+        return _extract_checks_any(it, ctx)
     name = ctx.arg("payload_name").conc
     other = "#p1" if name == "#p0" else "#p0"
     out_bytes = ctx.eval("FILE(output_envelope)")
@@ -324,6 +461,9 @@ def bounded(ctx):
                 for f in (outp, cache):
                     if os.path.exists(f):
                         os.unlink(f)
+                    if n % 3 == 0:
+                        open(f, "wb").write(b"\xd8\x6b" + b"\x00" * 5000)  # history: both output files exist already and are longer
+                        case["existing_longer_outputs"] = True
                 exp_cache, exp_env = _expected(env, omit, dep)
                 try:
                     cc.main(cache_create_subcommand="from_envelope", eb_size=eb, input_envelope=inp, output_envelope=outp, output_file=cache,
@@ -356,6 +496,8 @@ def bounded(ctx):
                 for f in (outp, pf):
                     if os.path.exists(f):
                         os.unlink(f)
+                    if with_file and replace is not None:
+                        open(f, "wb").write(b"\x00" * 3000)  # history: existing longer output files
                 if replace is not None:
                     open(rp, "wb").write(replace)
                 try:
